@@ -16,8 +16,8 @@ import (
 	"os/exec"
 	"path/filepath"
 	"reflect"
-	"sort"
 	"runtime/debug"
+	"sort"
 	"strings"
 	"syscall"
 	"testing"
